@@ -24,6 +24,12 @@ func NewDriver(st queue.Store, clock *int64) *Driver {
 	return &Driver{Store: st, Clock: clock, handles: map[string]string{}, reverse: map[string]string{}, bases: map[string]int{}}
 }
 
+// On returns a driver for another handle onto the same queue (e.g. a second SQLiteStore on the same file): the lease
+// handle tables are shared.
+func (d *Driver) On(st queue.Store) *Driver {
+	return &Driver{Store: st, Clock: d.Clock, handles: d.handles, reverse: d.reverse, bases: d.bases}
+}
+
 func (d *Driver) Reset() {
 	d.handles = map[string]string{}
 	d.reverse = map[string]string{}
